@@ -70,7 +70,7 @@ class DimSim(Engine):
 
     # ------------------------------------------------------------------ planning
     def tasks(self, prop, tier, seed):
-        n_hist = 3000 if tier == "quick" else 60000
+        n_hist = 20000 if tier == "quick" else 400000
         tasks = [{"kind": "table", "i": i, "j": j} for i in range(65) for j in range(65)]
         tasks += [{"kind": "single", "i": i} for i in range(65)]
         tasks += [{"kind": "hist", "idx": k} for k in range(n_hist)]
